@@ -1489,7 +1489,7 @@ COPE_RUST = [
     ("list?", ["marwood::vm::builtin::predicate::is_list"], "(list? l) on a circular l"),
     ("equal?", ["marwood::vm::compare::<impl marwood::vm::Vm>::equal", "marwood::vm::compare::<impl marwood::vm::Vm>::compare_pair",
                 "marwood::vm::compare::<impl marwood::vm::Vm>::compare_vector"], "(equal? a b) on circular / self-containing a, b"),
-    ("display, write, value of an evaluation", ["marwood::vm::heap::Heap::get_as_cell"],
+    ("display, write, value of an evaluation", ["marwood::vm::heap::Heap::get_as_cell", "marwood::vm::heap::Heap::get_as_cell_under"],
      "(display l), (write l) or l itself as the result, for a circular list or self-containing vector l"),
 ]
 
@@ -1598,7 +1598,7 @@ def r06q(ctx, rep, rule="R06q"):
             rv = st["rv"]
             if rv["k"] == "agg" and (rv.get("adt") or "") == "marwood::cell::Cell" and rv.get("variant") in ("Procedure", "Macro", "Continuation"):
                 n += 1
-                if p != "marwood::vm::heap::Heap::get_as_cell":
+                if p not in ("marwood::vm::heap::Heap::get_as_cell", "marwood::vm::heap::Heap::get_as_cell_under"):
                     bad.append((f, st))
     key = "%s|non-data-cells|constructed" % rule
     if bad:
@@ -1612,7 +1612,7 @@ def r06q(ctx, rep, rule="R06q"):
     reach_compile = set()
     for p, f in facts.fns.items():
         if f.crate == "marwood" and any((callee(t) or "").endswith("Heap::get_as_cell") for bb, t in f.calls()):
-            if p != "marwood::vm::heap::Heap::get_as_cell" and compile_entry in cg.reachable_from([p]) and p.startswith("marwood::vm::builtin::"):
+            if p not in ("marwood::vm::heap::Heap::get_as_cell", "marwood::vm::heap::Heap::get_as_cell_under") and compile_entry in cg.reachable_from([p]) and p.startswith("marwood::vm::builtin::"):
                 reach_compile.add(p)
     for p in sorted(reach_compile):
         f = facts.fns[p]
